@@ -271,3 +271,10 @@ func VerifProcessEnvironment(name string, replica int, global, own []string) []s
 	p := &Process{procConf: conf, globalEnv: global}
 	return p.getProcessEnvironment()
 }
+
+// VerifDaemonNotifyPending reports whether a "daemon stopped" notification is queued for the
+// running instance of name (the channel has room for one).
+func (p *ProjectRunner) VerifDaemonNotifyPending(name string) bool {
+	proc := p.runningProcesses[name]
+	return proc != nil && len(proc.procStateChan) > 0
+}
